@@ -510,6 +510,10 @@ def plan(tier, seed):
         if re.search(rb"mompass|\bread\b", t.src, re.I):
             continue
         cases.append({"gen": "corpus", "test": t.name, "extras": [0, 1, 2, 3] if thorough else [0, 1, 2]})
+    # every probe followed by every state-setting statement, under forced extra passes
+    npl = len(passleak_pairs())
+    for lo in range(0, npl, 40):
+        cases.append({"gen": "passleak", "lo": lo, "hi": min(npl, lo + 40), "extras": [0, 1, 2] if thorough else [0, 1]})
     return cases
 
 
@@ -524,6 +528,8 @@ def run_case(sim, case):
                 "sim_us": acc["sim_us"], "digest": chash(sorted(acc["shapes"]))}
     if case.get("kind") == "corpus-explicit" or case.get("gen") == "corpus":
         return run_corpus(sim, case, acc)
+    if case.get("gen") == "passleak":
+        return run_passleak(sim, case, acc)
     rng = Rng(case["seed"])
     out = []
     seen = set()
@@ -600,6 +606,108 @@ def run_corpus(sim, case, acc):
     return {"violations": [{"class": c, "detail": d, "case": ec} for c, d in seen.items()], "case": ec, "runs": acc["runs"], "sim_us": acc["sim_us"],
             "shapes": sorted(acc["shapes"]), "keys": acc["keys"], "stats": acc["stats"], "faults": acc["faults"], "probes": acc["probes"],
             "sample": {"golden": t.name, "extra_passes": extras}, "digest": None}
+
+
+# ------------------------------------------------------------------ state set late in the file vs. the next pass
+def _strip_ifdef(text):
+    """Probe text without its IFDEF blocks: whether a symbol defined further down counts as defined is pass-dependent
+    by design, and not what this generator is after."""
+    out, skip = [], 0
+    for ln in text.split("\n"):
+        w = ln.split()
+        if w and w[0].lower() == "ifdef":
+            skip += 1
+            continue
+        if skip and w and w[0].lower() == "endif":
+            skip -= 1
+            continue
+        if not skip:
+            out.append(ln)
+    return "\n".join(out)
+
+
+def passleak_pairs():
+    from . import c18
+    names = sorted(c18.PROBES)
+    return [(n, si) for n in names for si in range(len(c18.SETTERS))]
+
+
+def run_passleak(sim, case, acc):
+    """Source = probe followed by one state-setting statement.  The statement is the last thing pass N sees, the probe the
+    first thing pass N+1 sees: whatever the statement sets must not reach the probe.  Oracles: forced extra passes change
+    neither code nor symbols; the probe's bytes equal those of the probe assembled alone."""
+    from . import c18
+    pairs = passleak_pairs()
+    vio = []
+    solo = {}
+    ecase = None
+    for pi in range(case["lo"], case["hi"]):
+        pname, si = pairs[pi]
+        probe = _strip_ifdef(c18.PROBES[pname])
+        setter = c18.SETTERS[si]
+        if pname not in solo:
+            r, san = sim.run("asl", asl_scenario(probe.encode("latin1"), 0, 24), "plain")
+            acc["runs"] += 1
+            p = r.get("/w/a.p")
+            solo[pname] = codefile.image(codefile.parse(p))[0] if (r.outcome == "exit:0" and p) else None
+        if solo[pname] is None:
+            acc["stats"]["probe_rejected"] = acc["stats"].get("probe_rejected", 0) + 1
+            continue
+        src = (probe + "\n" + setter + "\n").encode("latin1")
+        res = {}
+        for e in case["extras"]:
+            r, san = sim.run("asl", asl_scenario(src, e, 24 + e), "plain")
+            acc["runs"] += 1
+            acc["sim_us"] += r.sim_us
+            acc["shapes"].add(r.hash)
+            acc["keys"].append((int(chash([pname, si, e]), 16), 1 if e else 0))
+            cls = oracle.classify("asl", r, san, allow_exit97=True)
+            if cls and "/hang/" not in cls:
+                vio.append(("C01/abnormal/" + cls, "%s + %r: %s" % (pname, setter, r.outcome), pname, si))
+                break
+            res[e] = (r.outcome, r.get("/w/a.p"), map_symbols(r.get("/w/a.map")), len(pass_trace(r)))
+            if e:
+                acc["faults"]["extra_pass"] = acc["faults"].get("extra_pass", 0) + e
+        base = res.get(0)
+        if base is None or base[0] != "exit:0" or base[1] is None:
+            acc["stats"]["rejected"] = acc["stats"].get("rejected", 0) + 1
+            continue
+        acc["stats"]["passleak_judged"] = acc["stats"].get("passleak_judged", 0) + 1
+        fam = pname
+        for e in case["extras"]:
+            if not e or e not in res:
+                continue
+            o, p, m, _n = res[e]
+            if o != "exit:0" or p is None:
+                vio.append(("C01/late-state/extra-pass-fails/%s" % fam, "%s followed by %r assembles, but fails when %d further pass(es) are run" % (pname, setter, e), pname, si))
+            elif p != base[1]:
+                vio.append(("C01/late-state/extra-pass-changes-code/%s" % fam, "%s followed by %r: code file changes under %d forced extra pass(es)" % (pname, setter, e), pname, si))
+            elif m != base[2]:
+                vio.append(("C01/late-state/extra-pass-changes-symbols/%s" % fam, "%s followed by %r: MAP symbols change under %d forced extra pass(es)" % (pname, setter, e), pname, si))
+        try:
+            img = codefile.image(codefile.parse(base[1]))[0]
+            bad = None
+            for seg, mem in solo[pname].items():
+                for a, v in mem.items():
+                    if img.get(seg, {}).get(a) != v:
+                        bad = (seg, a, v, img.get(seg, {}).get(a))
+                        break
+                if bad:
+                    break
+            if bad:
+                vio.append(("C01/late-state/reaches-earlier-code/%s" % fam,
+                            "%s followed by %r (%d passes): byte at segment %d address $%x is %r, the same text alone gives %r"
+                            % (pname, setter, base[3], bad[0], bad[1], bad[3], bad[2]), pname, si))
+        except codefile.FormatError as ex:
+            vio.append(("C01/malformed-code-file", str(ex), pname, si))
+    seen = {}
+    for c, d, pn, si in vio:
+        seen.setdefault(c, (d, pn, si))
+    pall = passleak_pairs()
+    return {"violations": [{"class": c, "detail": d, "case": {"gen": "passleak", "lo": pall.index((pn, si)), "hi": pall.index((pn, si)) + 1, "extras": case["extras"]}}
+                           for c, (d, pn, si) in seen.items()],
+            "case": case, "runs": acc["runs"], "sim_us": acc["sim_us"], "shapes": sorted(acc["shapes"]), "keys": acc["keys"], "stats": acc["stats"],
+            "faults": acc["faults"], "probes": acc["probes"], "sample": {"late-state pairs": [case["lo"], case["hi"]]}, "digest": None}
 
 
 def minimise(sim, case, vclass):
